@@ -156,6 +156,9 @@ def _files_case(draw, large):
         "order_a": draw(st.lists(st.integers(0, 16), max_size=12)),
         "order_b": draw(st.lists(st.integers(0, 16), max_size=12)),
         "select": {"corpora": None, "indices": None},
+        # the bulk task is listed after sub-tasks with this many clients in a parallel element (its clients' partition indexes come
+        # out of the real Allocator)
+        "preceding_clients": draw(st.sampled_from([0, 0, 1, 2, 3, 5])),
     }
     if not large and draw(st.integers(0, 7)) == 0:
         # template: p % of the group's bulks is a whole number (25 / 50 / 100 / 200 bulks, integer percentage): one single group reads one file
@@ -404,13 +407,36 @@ def _op_params(case, ingest):
     return p
 
 
+def _indexes_from_allocator(task, preceding):
+    """
+    the index each client of the bulk task passes to partition(): what the real Allocator writes into TaskAllocation.client_index_in_task
+    when the task is listed after sub-tasks with `preceding` clients in a parallel element (0: the task stands alone)
+    """
+    from esrally.driver import driver  # pylint: disable=import-outside-toplevel
+
+    if not preceding:
+        element = task
+    else:
+        element = track.Parallel([track.Task("query-task", track.Operation("query", "search"), clients=preceding), task])
+    found = {}
+    for row in driver.Allocator([element]).allocations:
+        for entry in row:
+            for ta in entry if isinstance(entry, list) else [entry]:
+                if getattr(ta, "task", None) is task:
+                    found[ta.global_client_index - preceding] = ta.client_index_in_task
+    if sorted(found) != list(range(task.clients)):
+        raise core.HarnessError(f"allocator did not allocate the bulk task's clients as expected: {found}")
+    return found
+
+
 def _drain_group(t, case, ingest, group, order, seed, limit):
     """what AsyncIoAdapter.run + schedule_for do with the parameter source for the clients of one task on one worker"""
     op = track.Operation("bulk-op", track.OperationType.Bulk.to_hyphenated_string(), params=_op_params(case, ingest))
     task = track.Task("bulk-task", op, clients=case["clients"])
     random.seed(seed)
     source = loader.operation_parameters(t, task)
-    handles = [source.partition(c, task.clients) for c in group]  # ascending client order, as the allocations are
+    index_in_task = _indexes_from_allocator(task, case.get("preceding_clients", 0))
+    handles = [source.partition(index_in_task[c], task.clients) for c in group]  # ascending client order, as the allocations are
     active = list(range(len(handles)))
     bulks = []
     step = 0
@@ -890,6 +916,8 @@ def _run_files(case, obs):
             obs.cls("duplicate-lines")
         if case["batch_k"] > 1:
             obs.cls("batch>bulk")
+        if case.get("preceding_clients"):
+            obs.cls("listed-after-other-tasks-in-a-parallel-element")
         if whole_share:
             obs.cls("ingest-share-is-a-whole-number-of-bulks")
         if len(targeted) < sum(len(cf) for cf in files):
